@@ -333,7 +333,9 @@ def _get_cvar_weights_from_percentile(
 
     weights = np.zeros(values.size)
     weights[indices[:n_var]] = p_max
-    if n_var < indices.size:
+    # The remainder may be rounding noise of either sign if percentile * size
+    # is (nearly) an integer, it must not produce a negative or spurious weight:
+    if n_var < indices.size and p_var > np.finfo(np.float64).eps:
         weights[indices[n_var]] = p_var
     return weights
 
